@@ -129,7 +129,9 @@ CLAIMS = {
        "logged strictly negative lattice point of the window two cells larger than the boxes (BBcode only as drift). Constructors "
        "without lattice semantics (rounded primitives, cones, capsules, lines, polygons, arbitrary rotations, non-uniform scale, "
        "the extrusion family, loft, revolve, screw, slice, voxel, text, cams, flange, rack, gear, spiral, splines, every obj part "
-       "with the examples' parameter sets) are probed on a stratified grid over the box enlarged by 50 %; BBoxTrace.tla judges.",
+       "with the examples' parameter sets) are probed on a stratified grid over the box enlarged by 50 %; BBoxTrace.tla judges. "
+       "The same clause judges every box handed out when two first BoundingBox() calls on one combinator overlap: the schedule "
+       "is forced through an operand whose BoundingBox() can be held (21 combinators, c01conc.go).",
   design_ref="DESIGN.md section 6 C01, sections 3 and 10", technique="TLC program enumeration on an exact lattice + replay on the real constructors + TLC trace validation; measured probes judged by a TLC trace spec",
   note=TB + " Exhaustive only over depth-1 programs on the reduced parameter grid; deeper programs and all real-valued shapes are seeded samples; "
        "'all points' is the integer window (stage 1) or a stratified sample (stage 2). Known findings are keyed by constructor."),
@@ -251,11 +253,13 @@ CLAIMS = {
        "three independently written inside definitions agree and exports the exact rational squared distances. Each polygon is "
        "evaluated by the real Polygon2D, Mesh2D and Mesh2DSlow at every such point and at probes taken from the real quadtree "
        "((*MeshSDF2).Boxes(): corners, split lines, split line x vertex level, +-1 ulp); seeded random star / thin / many-vertex / "
-       "staircase polygons (some with vertices moved onto their own split lines) are probed level with vertices and on split "
-       "lines. PolyTrace.tla recomputes Inside and D2 exactly and judges sign, distance (2e-9) and quadtree vs brute force.",
+       "staircase polygons (some with vertices moved onto their own split lines, or 5e-10 .. 1e-8 of the polygon size beside "
+       "them) are probed level with vertices and on split lines. PolyTrace.tla recomputes Inside and D2 exactly and judges sign, "
+       "distance (twice the clipper's snapping distance max(1e-9, 1e-14 x largest coordinate)) and quadtree vs brute force.",
   design_ref="DESIGN.md section 6 C04", technique="TLC state-machine enumeration of simple lattice polygons + replay into the real polygon SDFs + TLC trace validation; real-valued probes measured against an exact-orientation brute force",
   note=TB + " Real-valued probe points (quadtree split lines are not lattice points) are judged against the harness's brute force, "
-       "not against a TLC-computed value. Two genuine defect classes of the quadtree winding are listed in known_findings.json."),
+       "not against a TLC-computed value. The genuine defects this check found in the quadtree (winding, clipper) are repaired; "
+       "see known_findings.json (fixed entries)."),
 }
 
 NOT_APPLICABLE = {}
